@@ -33,6 +33,8 @@ inductive St
   | seq (a b : St)
   | fatal (m : Nat)                -- YY_FATAL_ERROR: does not return
   | ret (e : Ex)
+  | read (dst max : Ex) (res : Nat) -- YY_INPUT(&array[dst], res, max): the reader outside the model puts at most `max`
+                                   -- elements at array[dst...] and says in `res` how many
 deriving Repr, Inhabited
 
 inductive Outcome
@@ -71,6 +73,11 @@ def Ex.eval (s : State) : Ex → Option Int
   | .and a b => do let x ← a.eval s; let y ← b.eval s; pure (b2i (x != 0 && y != 0))
   | .or a b => do let x ← a.eval s; let y ← b.eval s; pure (b2i (x != 0 || y != 0))
   | .cond c a b => do let x ← c.eval s; if x != 0 then a.eval s else b.eval s
+
+/-- what the reader called by `read` supplies, as part of the (universally quantified) variables: it
+    offers `vars inLen` elements (none if that is not positive), element `i` being `vars (inByte i)` -/
+def inLen : Nat := 900
+def inByte (i : Nat) : Nat := 901 + i
 
 def setVar (s : State) (x : Nat) (v : Int) : State :=
   { s with vars := fun y => if y = x then v else s.vars y }
@@ -132,5 +139,15 @@ def St.run : St → State → State × Outcome
     match e.eval s with
     | some v => (s, .returned v)
     | none => (s, .oob)
+  | .read dst max res, s =>
+    -- the reader may write anywhere in array[dst .. dst+max): all of that must lie inside the array
+    match dst.eval s, max.eval s with
+    | some d, some m =>
+      if 0 ≤ d ∧ 0 ≤ m ∧ d.toNat + m.toNat ≤ s.arr.length then
+        let n := min (s.vars inLen).toNat m.toNat
+        (setVar { s with arr := s.arr.take d.toNat ++ (List.range n).map (fun i => s.vars (inByte i)) ++ s.arr.drop (d.toNat + n) }
+           res n, .normal)
+      else (s, .oob)
+    | _, _ => (s, .oob)
 
 end FlexVerif.Imp
